@@ -4,7 +4,9 @@
    gave for hex decoding, Keccak-256, public-key recovery, address derivation and ECDSA
    verification on that call's data, from which the model's oracles are instantiated, and
    (b) what the real contracts did and showed afterwards. *)
+From Coq Require Import ZArith Uint63.
 From LP Require Import Airdrop.
+Local Open Scope N_scope.
 
 (* hex::decode, concretely (the theorems do not depend on this; it instantiates `hexdec`
    and is itself compared with the harness's decoder on every call) *)
@@ -23,6 +25,17 @@ Fixpoint hex_decode (s : bytes) : option bytes :=
       | _, _, _ => None
       end
   end.
+
+(* Byte strings cross from the harness packed seven to a primitive 63-bit integer
+   (big-endian, the last chunk zero-padded) with their length: the elaborator reads a
+   primitive integer literal as one node, a list of N costs it ~13x more time.  Only this
+   correspondence vocabulary uses primitive integers; the model and the theorems do not. *)
+Definition byte_at (i : int) (k : int) : N := Z.to_N (Uint63.to_Z (Uint63.land (Uint63.lsr i k) 255%uint63)).
+Definition bytes7 (i : int) : bytes :=
+  [byte_at i 48%uint63; byte_at i 40%uint63; byte_at i 32%uint63; byte_at i 24%uint63;
+   byte_at i 16%uint63; byte_at i 8%uint63; byte_at i 0%uint63].
+Definition P (n : N) (chunks : list int) : bytes := firstn (N.to_nat n) (flat_map bytes7 chunks).
+Arguments P n%N chunks%uint63.
 
 Definition obytes_eqb := option_eqb bytes_eqb.
 
@@ -106,7 +119,7 @@ Fixpoint steps_check (w : world) (ss : list c16_step) : option world :=
   end.
 
 Definition counts_agree (m : bmap) (obs : list (bytes * N)) : bool :=
-  (N.of_nat (length m) =? N.of_nat (length obs))
+  (N.of_nat (List.length m) =? N.of_nat (List.length obs))
   && forallb (fun kv => option_eqb N.eqb (bmap_find (fst kv) m) (Some (snd kv))) obs.
 
 Definition c16_check (c : c16_case) : bool :=
